@@ -388,13 +388,15 @@ Fixpoint step_kinds (root_kind : string) (depth : nat) (p : plan) {struct p} : l
          match l with [] => [] | x :: t => step_kinds root_kind (S depth) x ++ go t end) after
   end.
 
-(** The whole gateway: normalise, plan, execute, delete the _federation keys (Executor.Execute). *)
+(** The whole gateway: normalise, plan, execute, delete the _federation keys (Executor.Execute).  Fuel is a
+    device of the model only: the normaliser gets two units per nesting level of the query (and four to spare),
+    the planner twice the normaliser's plus two -- enough for every query (PlannerTotal.plan_root_total_flatten). *)
 Definition fed_exec_gen (prune : bool) (w : world) (g : gschema) (pick : list string -> option string)
            (dedupe repaired : bool) (q : list node) : option json :=
   let fuel := 2 * depth_list q + 4 in
   match flatten_gen prune fuel dedupe g (RObj "Query") (Some q) with
   | Some (Some flat) =>
-      match plan_root g pick fuel flat with
+      match plan_root g pick (2 * fuel + 2) flat with
       | Some p =>
           match exec_plan w g repaired p None with
           | Some [r] => Some (delete_key federation_field r)
